@@ -2,7 +2,7 @@
    Gen/FileManager.v of generator/file_manager.go.  This file holds statements only;
    every proof is [exact lemma] and is followed by Print Assumptions. *)
 From Coq Require Import List Arith Bool.
-From Verif Require Import Base.Bytes Gen.FileManager Gen.FileManagerFacts.
+From Verif Require Import Base.Bytes Gen.FileManager Gen.FileManagerFacts Gen.FileManagerTerm.
 Import ListNotations.
 
 (* Every history of Feed calls (any number of calls, any items): the assembled output never
@@ -92,6 +92,18 @@ Theorem C12_text_outside_markers_unchanged :
   forall pairs s, no_key_anywhere pairs s -> replace pairs s = s.
 Proof. exact replace_no_key. Qed.
 Print Assumptions C12_text_outside_markers_unchanged.
+
+(* Termination: for every history the model never exhausts the fuel it gives to the rename walk
+   (the Go `for {}` loop) or to the item loop — the walk over own siblings ends, and among the
+   candidate names `<stem>_<n><ext>` a free one is reached after at most as many steps as there are
+   files (decimal printing is injective, pigeonhole).  So Feed always returns. *)
+Theorem C12_feed_terminates : forall h, run h <> Fuel.
+Proof. exact run_never_out_of_fuel. Qed.
+Print Assumptions C12_feed_terminates.
+
+Theorem C12_renamed_names_distinct : forall name a b, renamed name a = renamed name b -> a = b.
+Proof. exact renamed_inj. Qed.
+Print Assumptions C12_renamed_names_distinct.
 
 (* Non-vacuity: concrete histories exercising the premises. *)
 From Coq Require Import String.
